@@ -38,6 +38,7 @@ func genC08(r *kernel.Rand) *kernel.Scenario {
 	c["react_max_us"] = int64([]int{50, 500, 3000}[r.Intn(3)])
 	c["ledger_max_us"] = int64([]int{200, 2000}[r.Intn(2)])
 	c["yield_pct"] = int64([]int{0, 30, 100}[r.Intn(3)])
+	c["long_yields"] = int64(r.Intn(2))
 	c["ctx_ms"] = 60000
 	// honest openings with nonce-share variations
 	n := r.Range(1, 4)
